@@ -7,6 +7,7 @@ LIB = "pub fn a(x) { x }\npub fn c() { 1 }\nfn p() { 2 }\npub type A { A(a: Int)
 EXTRA_SEEDS = [
     # mutual recursion / recursion groups (the functions of one group are inferred together)
     'import m2\npub fn is_even(n) { case n { 0 -> True _ -> is_odd(n - 1) } }\npub fn is_odd(n) { case n { 0 -> False _ -> is_even(n - 1) } }\nfn top() { is_even(m2.c()) }\n',
+    'pub fn ping(n) { case n { 0 -> 0 _ -> pong(n - 1) } }\nfn pong(n) { ping(n) + 1 }\n',
     'fn p1(x) { p2(x + 1) }\nfn p2(y) { p3(y) <> "s" }\nfn p3(z) { case z { 0 -> "" _ -> p1(z) } }\nfn solo() { p2(1) }\n',
     # hand-written multi-feature seeds (fields, labels, types, non-ASCII)
     'import m2.{type A, A}\npub type T { T(x: Int, y: String) U }\npub fn f(t: T) -> Int { case t { T(x: x, ..) -> x U -> 0 } }\nfn g(a: A) { a.a }\nconst s = "é💣"\n',
